@@ -13,6 +13,7 @@ import (
 	"github.com/pion/ice/v4"
 	"github.com/pion/logging"
 	"github.com/pion/transport/v4/packetio"
+	"github.com/pion/webrtc/v4/internal/verifhook"
 )
 
 const (
@@ -73,6 +74,7 @@ func (m *Mux) NewEndpoint(matchFunc MatchFunc) *Endpoint {
 	m.lock.Lock()
 	m.endpoints[endpoint] = matchFunc
 	m.lock.Unlock()
+	verifhook.Point("mux.newEndpoint.registered")
 
 	go m.handlePendingPackets(endpoint, matchFunc)
 
@@ -199,6 +201,7 @@ func (m *Mux) dispatch(buf []byte) error {
 }
 
 func (m *Mux) handlePendingPackets(endpoint *Endpoint, matchFunc MatchFunc) {
+	verifhook.Point("mux.handlePending.start")
 	m.lock.Lock()
 	defer m.lock.Unlock()
 
